@@ -48,7 +48,8 @@ META = dict(
               '(1-D n<=5, 2-D 2x2,2x3,3x2), single-entry+corner+corner-and-one+strided patterns for 1-D n<=24, 2-D '
               'n<=4, (6,6), (2,2,2), (2,2,2,2), (3,2,3); folded: 1-D n<=10 (no/single/pair extra masked entries), 2-D '
               '8 shapes n<=4, (2,2,2), (1,2,1); refusal 1-4-D; weight vectors of _cached_projection: every '
-              '(n,m,hits) with n<=40, n in {100,200} with m in {1,n/2,n-1} all hits',
+              '(n,m,hits) with n<=40, n in {100,200} with m in {1,n/2,n-1} all hits, and 14 (n,m) pairs that put 127..129 / '
+              '255..257 into n, m or n-m (weights-edge-*)',
         thorough='1-D: every n<=40 all m, n in {50,64,100,128,200} with m in {1,2,3,n/2,n-2,n-1,n}; two-stage n<=24; '
                  'theta/i n<=40 and n=64 all m, n in {100,200} selected m; 2-D: all shapes n<=6 all targets, '
                  '(8,8),(10,7),(12,12),(3,20) selected; 3-D: all shapes n<=3 all targets, (4,4,4),(5,3,4) selected; '
@@ -56,7 +57,7 @@ META = dict(
                  'for spectra with E<=12 entries (1-D n<=11, 2-D up to 2x6/3x4, 3-D 2x2x2 and 2x2x3 shapes), other '
                  'patterns as quick for 1-D n<=40, 2-D n<=5, (3,3,3), (3,3,3,3), (2,1,2,2); folded: 1-D n<=20, 2-D '
                  'all shapes n<=5, (7,6), (3,3,3), (3,2,3), (2,2,2,2), (1,2,2,1); weight vectors: every (n,m,hits) with '
-                 'n<=64, n in {100,128,200} with m in {1,2,3,n/2,n-2,n-1} all hits'),
+                 'n<=64, n in {100,128,200} with m in {1,2,3,n/2,n-2,n-1} all hits, plus the weights-edge-* pairs of the quick tier'),
     outside=['float accuracy of the log-space weights (gammaln/exp round-off, underflow handling)',
              'sample sizes beyond the per-tier bounds (the property\'s n<=200 is reached only by the weight-vector '
              'units for selected (n,m))', 'target size m=0', 'data values stored under masked result entries',
@@ -825,6 +826,11 @@ def units(tier, seed):
         for m in (_bigm(n)[:-1] if th else [1, n // 2, n - 1]):
             add('weights-big-n%d-m%d' % (n, m), make_weights([(n, m)], False), dict(n=n, m=m, hits='0..n'),
                 3 * (n + 1))
+    # sizes at and next to powers of two, as n, as m and as n - m (a table of log-factorials / a packed key / a narrow
+    # integer type has its edge there; each of the three binomials in the weight sees the size once)
+    for n, m in ((127, 1), (128, 1), (128, 127), (129, 1), (129, 128), (130, 2), (130, 128), (255, 254), (256, 1),
+                 (256, 255), (257, 1), (257, 256), (258, 2), (258, 256)):
+        add('weights-edge-n%d-m%d' % (n, m), make_weights([(n, m)], False), dict(n=n, m=m, hits='0..n'), 3 * (n + 1))
     for ns_ in ((5,), (4, 3)) + (((6, 2, 3),) if th else ()):
         add('sizes-owned-%s' % 'x'.join(map(str, ns_)), make_sizes_owned(ns_), dict(ns=list(ns_)), 4)
     # large sizes requested one after the other in ONE process (memo keys of neighbouring sizes must not collide)
